@@ -2,6 +2,11 @@ module verifharness
 
 go 1.18
 
-require github.com/iDigitalFlame/xmt v0.0.0
+require (
+	github.com/PurpleSec/logx v1.6.1
+	github.com/iDigitalFlame/xmt v0.0.0
+)
+
+require github.com/PurpleSec/escape v1.0.0 // indirect
 
 replace github.com/iDigitalFlame/xmt => /repo
